@@ -265,9 +265,17 @@ def normalize(model):
     """Inline unknown static helpers in place.  Returns a list of notes (what was inlined / left)."""
     known = known_tokens()
     notes = []
+    _ENUMERATORS.clear()
+    _ENUMERATORS.update(model.enumerators)
+    ntd, lowered_tables = lower_table_dispatch(model)
+    if ntd:
+        notes.append("%d call(s) through a constant function table lowered to if / else-if chains" % ntd)
     nsw = lower_switches(model)
     if nsw:
         notes.append("%d switch statement(s) lowered to if / else-if chains" % nsw)
+    nee = early_exit_form(model)
+    if nee:
+        notes.append("%d single-exit construct(s) with a result flag brought to early-exit form" % nee)
     ncg = continue_guards_to_blocks(model)
     if ncg:
         notes.append("%d continue guard(s) rewritten as blocks" % ncg)
@@ -297,7 +305,9 @@ def normalize(model):
             if k in cands:
                 notes.append("helper %s not inlined: its address is taken" % cands[k].name)
                 cands.pop(k, None)
-    for g in model.globals.values():
+    for gk, g in model.globals.items():
+        if gk in lowered_tables:
+            continue                      # every use of this table became direct calls
         for n in walk(g.node):
             if n["kind"] == "DeclRefExpr" and n.get("ref", {}).get("kind") == "FunctionDecl":
                 cands.pop(model.resolve(g.unit, n["ref"]["name"]), None)
@@ -548,8 +558,16 @@ def _lower_switch(sw):
     if len(ch) != 2 or ch[1]["kind"] != "CompoundStmt":
         return None
     cond, body = ch
+    hoisted = None
     if not _pure_expr(cond):
-        return None
+        # evaluate the controlling expression once into a synthetic local (the inliner then sees a plain initialiser)
+        vid = _Ids.fresh("switch")
+        vt = cond.get("type") or "int"
+        vd = _mk("VarDecl", [cond], name="switch_on_%d" % _Ids.n, id=vid, type=vt, file=sw.get("file"), line=sw.get("line"),
+                 col=sw.get("col"), init="c")
+        hoisted = _mk("DeclStmt", [vd], file=sw.get("file"), line=sw.get("line"))
+        cond = _mk("DeclRefExpr", [], ref={"id": vid, "kind": "VarDecl", "name": vd["name"], "type": vt}, type=vt,
+                   file=sw.get("file"), line=sw.get("line"), col=sw.get("col"))
     groups = []          # (labels or None for default, [stmts], terminated)
     cur = None
     for st in kids(body):
@@ -592,6 +610,27 @@ def _lower_switch(sw):
         cur[1].append(st)
         if st["kind"] == "ReturnStmt":
             cur[2] = True
+    # `if (c) { A; break; } rest` inside a case body is `if (c) { A } else { rest }`
+    def unnest(stmts):
+        out = []
+        for i_, s_ in enumerate(stmts):
+            if s_["kind"] == "CompoundStmt":
+                s2 = dict(s_)
+                s2["inner"] = unnest(list(kids(s_)))
+                out.append(s2)
+                continue
+            if s_["kind"] == "IfStmt" and len(kids(s_)) == 2:
+                th = kids(s_)[1]
+                body_ = list(kids(th)) if th["kind"] == "CompoundStmt" else [th]
+                if body_ and body_[-1]["kind"] == "BreakStmt" and not any(has_switch_break(b_) for b_ in body_[:-1]):
+                    rest = unnest(stmts[i_ + 1:])
+                    then_blk = _mk("CompoundStmt", body_[:-1], file=s_.get("file"), line=s_.get("line"))
+                    inner_ = [kids(s_)[0], then_blk] + ([_mk("CompoundStmt", rest, file=s_.get("file"), line=s_.get("line"))] if rest else [])
+                    out.append(_mk("IfStmt", inner_, file=s_.get("file"), line=s_.get("line"), col=s_.get("col")))
+                    return out
+            out.append(s_)
+        return out
+
     # a break belonging to the switch nested inside an if: not handled
     def has_switch_break(n, inloop=False):
         if n["kind"] == "BreakStmt":
@@ -599,6 +638,8 @@ def _lower_switch(sw):
         if n["kind"] in ("ForStmt", "WhileStmt", "DoStmt", "SwitchStmt"):
             return False
         return any(has_switch_break(c, inloop) for c in kids(n))
+    for g in groups:
+        g[1] = unnest(g[1])
     for g in groups:
         if any(has_switch_break(s_) for s_ in g[1]):
             return None
@@ -619,12 +660,324 @@ def _lower_switch(sw):
             c = _mk("BinaryOperator", [c, eq(lb)], opcode="||", type="int", file=sw.get("file"), line=sw.get("line"))
         chain.append((c, blk))
     if not chain:
-        return default
+        return default if hoisted is None else _mk("CompoundStmt", [hoisted] + ([default] if default is not None else []),
+                                                   file=sw.get("file"), line=sw.get("line"))
     tail = default
     for c, blk in reversed(chain):
         inner = [c, blk] + ([tail] if tail is not None else [])
         tail = _mk("IfStmt", inner, file=sw.get("file"), line=sw.get("line"), col=sw.get("col"))
+    if hoisted is not None:
+        return _mk("CompoundStmt", [hoisted, tail], file=sw.get("file"), line=sw.get("line"), synthetic_block=True)
     return tail
+
+
+_STRUCTURAL = ("CompoundStmt", "IfStmt", "ForStmt", "WhileStmt", "DoStmt", "SwitchStmt", "CaseStmt", "DefaultStmt", "LabelStmt")
+
+
+def lower_table_dispatch(model):
+    """A call through a constant table of functions, `T[i](args)` or `f = T[i]; ... (*f)(args)`, becomes the chain
+    `if (i == 0) T0(args) else if (i == 1) T1(args) ...` (NULL entries have no arm; an index of enum type is compared with
+    the enumerator of that value).  Returns (number lowered, keys of tables all of whose uses were lowered)."""
+    n_low = 0
+    tables = {}            # VarDecl id -> (global key or None, [function DeclRefExpr or None])
+    for key, g in model.globals.items():
+        node = g.node
+        t = node.get("type") or ""
+        if "const" not in t or "[" not in t:
+            continue
+        il = [x for x in kids(node) if x["kind"] == "InitListExpr"]
+        if len(il) != 1:
+            continue
+        ents = []
+        ok = True
+        for e in kids(il[0]):
+            e0 = strip(e, casts=True)
+            if e0["kind"] == "DeclRefExpr" and e0.get("ref", {}).get("kind") == "FunctionDecl":
+                ents.append(e0)
+            elif e0["kind"] == "ImplicitValueInitExpr" or _const_value(e0) == 0 or e0["kind"] == "GNUNullExpr":
+                ents.append(None)
+            else:
+                ok = False
+        if ok and any(e is not None for e in ents):
+            tables[node.get("id")] = (key, ents)
+    if not tables:
+        return 0, set()
+    other_use = set()
+    for f in model.funcs.values():
+        rel = model.rel(f.file) or ""
+        if not rel.startswith(("src/", "include/")):
+            continue
+
+        def table_subscript(e):
+            e0 = strip(e, casts=True)
+            while e0["kind"] == "UnaryOperator" and e0.get("opcode") == "*":
+                e0 = strip(kids(e0)[0], casts=True)
+            if e0["kind"] == "ArraySubscriptExpr":
+                b = strip(kids(e0)[0], casts=True)
+                if b["kind"] == "DeclRefExpr" and b.get("ref", {}).get("id") in tables:
+                    return b["ref"]["id"], kids(e0)[1], e0
+            return None
+        # locals that hold one table entry
+        held = {}
+        for x in walk(f.body):
+            if x["kind"] == "VarDecl" and kids(x):
+                ts = table_subscript(kids(x)[0])
+                if ts is not None:
+                    held[x.get("id")] = ts
+        stores = set()
+        for x in walk(f.body):
+            if x["kind"] == "BinaryOperator" and x.get("opcode") == "=":
+                l = strip(kids(x)[0], casts=True)
+                if l["kind"] == "DeclRefExpr" and l["ref"].get("id") in held:
+                    stores.add(l["ref"]["id"])
+        for h in stores:
+            held.pop(h, None)
+        changed = True
+        handled_nodes = set()
+        while changed:
+            changed = False
+            for x in walk(f.body):
+                if x["kind"] not in _STRUCTURAL:
+                    continue
+                ch = x.get("inner") or []
+                for i, c in enumerate(ch):
+                    if c["kind"] in _STRUCTURAL or c["kind"] in ("DeclStmt", "ReturnStmt", "Null"):
+                        continue
+                    if x["kind"] in ("IfStmt", "WhileStmt", "SwitchStmt") and i == 0:
+                        continue              # the controlling expression
+                    if x["kind"] == "ForStmt" and i < 4:
+                        continue
+                    if x["kind"] == "DoStmt" and i == 1:
+                        continue
+                    calls = [y for y in walk(c) if y["kind"] == "CallExpr"]
+                    hit = None
+                    for y in calls:
+                        cal = strip(kids(y)[0], casts=True)
+                        while cal["kind"] == "UnaryOperator" and cal.get("opcode") == "*":
+                            cal = strip(kids(cal)[0], casts=True)
+                        ts = table_subscript(cal)
+                        if ts is None and cal["kind"] == "DeclRefExpr" and cal.get("ref", {}).get("id") in held:
+                            ts = held[cal["ref"]["id"]]
+                        if ts is not None:
+                            hit = (y, ts)
+                            break
+                    if hit is None:
+                        continue
+                    y, (tid, idx, sub) = hit
+                    if not _pure_expr(idx):
+                        continue
+                    key, ents = tables[tid]
+                    it = strip(idx, casts=True)
+                    # follow a single-definition local to see an enum type
+                    ity = it.get("type") or ""
+                    if it["kind"] == "DeclRefExpr" and it["ref"].get("kind") == "VarDecl":
+                        for vd in walk(f.body):
+                            if vd["kind"] == "VarDecl" and vd.get("id") == it["ref"]["id"] and kids(vd):
+                                ity = strip(kids(vd)[0], casts=True).get("type") or ity
+                    enum_names = None
+                    if ity.startswith("enum "):
+                        enum_names = model.enums.get(ity[5:].strip())
+                    arms = []
+                    for k_, ent in enumerate(ents):
+                        if ent is None:
+                            continue
+                        lab = None
+                        if enum_names:
+                            for nm in enum_names:
+                                if model.enumerators.get(nm) == k_:
+                                    lab = _mk("DeclRefExpr", [], ref={"id": "enum:" + nm, "kind": "EnumConstantDecl", "name": nm, "type": "int"},
+                                              type="int", file=c.get("file"), line=c.get("line"))
+                        if lab is None:
+                            lab = _mk("IntegerLiteral", [], value=str(k_), type="int", file=c.get("file"), line=c.get("line"))
+                        test = _mk("BinaryOperator", [copy.deepcopy(idx), lab], opcode="==", type="int", file=c.get("file"), line=c.get("line"))
+                        st = copy.deepcopy(c)
+                        # the copy of the call: replace its callee by the entry
+                        pos = [j for j, z in enumerate(walk(c)) if z is y][0]
+                        y2 = list(walk(st))[pos]
+                        y2["inner"] = [copy.deepcopy(ent)] + list(kids(y2)[1:])
+                        arms.append((test, _mk("CompoundStmt", [st], file=c.get("file"), line=c.get("line"))))
+                    tail = None
+                    for test, blk in reversed(arms):
+                        tail = _mk("IfStmt", [test, blk] + ([tail] if tail is not None else []), file=c.get("file"), line=c.get("line"), col=c.get("col"))
+                    if tail is None:
+                        continue
+                    ch[i] = tail
+                    handled_nodes.add(id(sub))
+                    n_low += 1
+                    changed = True
+                    break
+                if changed:
+                    break
+        # any remaining evaluated reference to a table (outside sizeof, outside the initialiser of a local we resolved)
+        def scan(n, in_sizeof):
+            if n["kind"] == "UnaryExprOrTypeTraitExpr":
+                in_sizeof = True
+            if n["kind"] == "DeclRefExpr" and n.get("ref", {}).get("id") in tables and not in_sizeof:
+                return [n]
+            out = []
+            for c_ in kids(n):
+                out += scan(c_, in_sizeof)
+            return out
+        live_holders = set()
+        for y in walk(f.body):
+            if y["kind"] == "DeclRefExpr" and y.get("ref", {}).get("id") in held:
+                # a holder that is still called through (not lowered) or compared only? comparisons with NULL are harmless
+                live_holders.add(y["ref"]["id"])
+        for x in walk(f.body):
+            if x["kind"] == "CallExpr":
+                cal = strip(kids(x)[0], casts=True)
+                while cal["kind"] == "UnaryOperator" and cal.get("opcode") == "*":
+                    cal = strip(kids(cal)[0], casts=True)
+                if (cal["kind"] == "DeclRefExpr" and cal.get("ref", {}).get("id") in held) or table_subscript(cal) is not None:
+                    tid = held[cal["ref"]["id"]][0] if cal["kind"] == "DeclRefExpr" else table_subscript(cal)[0]
+                    other_use.add(tid)
+        for r_ in scan(f.body, False):
+            # references inside the initialiser of a resolved holder are fine
+            ok_ref = False
+            for vd in walk(f.body):
+                if vd["kind"] == "VarDecl" and vd.get("id") in held and any(z is r_ for z in walk(vd)):
+                    ok_ref = True
+            if not ok_ref:
+                other_use.add(r_["ref"]["id"])
+    done = {tables[t][0] for t in tables if t not in other_use}
+    return n_low, done
+
+
+def _not(c):
+    c0 = strip(c)
+    if c0["kind"] == "UnaryOperator" and c0.get("opcode") == "!":
+        return kids(c0)[0]
+    return _mk("UnaryOperator", [_mk("ParenExpr", [c], type=c.get("type"), file=c.get("file"), line=c.get("line"))], opcode="!",
+               type="int", file=c.get("file"), line=c.get("line"), col=c.get("col"))
+
+
+def _refs_to(root, vid):
+    return [x for x in walk(root) if x["kind"] == "DeclRefExpr" and x.get("ref", {}).get("id") == vid]
+
+
+def early_exit_form(model):
+    """Single-exit code written with a result flag is brought to the early-exit form the rules read:
+      (1)  T r = K0; ...; if (c) { S; r = K1; } return r;        ->  ...; if (!c) return K0; S; return K1;
+      (2)  r = K (K satisfies T); while (T(r) && C) { B; r = E; }  if (T(r)) X else Y;  return r;
+                                                                  ->  while (C) { B; r = E; if (!T(r)) { Y; return r; } }  X; return r;
+    (r is a local that is not referenced otherwise in (1); in (2) it is assigned only by the last statement of the loop body).
+    Both rewrites preserve the order of all effects."""
+    n = 0
+    for f in model.funcs.values():
+        rel = model.rel(f.file) or ""
+        if not rel.startswith(("src/", "include/")) or f.body is None:
+            continue
+        st = f.body.get("inner") or []
+        # ---- (1)
+        if len(st) >= 3 and st[-1]["kind"] == "ReturnStmt" and kids(st[-1]) and st[-2]["kind"] == "IfStmt" and len(kids(st[-2])) == 2:
+            rv = strip(kids(st[-1])[0], casts=True)
+            if rv["kind"] == "DeclRefExpr" and rv["ref"].get("kind") == "VarDecl":
+                vid = rv["ref"]["id"]
+                decl = None
+                for d in st[:-2]:
+                    if d["kind"] == "DeclStmt":
+                        for vd in kids(d):
+                            if vd["kind"] == "VarDecl" and vd.get("id") == vid and kids(vd) and _const_value(kids(vd)[0]) is not None:
+                                decl = vd
+                then = kids(st[-2])[1]
+                tb = list(kids(then)) if then["kind"] == "CompoundStmt" else [then]
+                if decl is not None and tb:
+                    last = tb[-1]
+                    k1 = _assign_const_to(last, vid) if last["kind"] == "BinaryOperator" else None
+                    nrefs = len(_refs_to(f.body, vid))
+                    if k1 is not None and nrefs == 2:           # the final assignment and the return
+                        def ret(v_, like):
+                            return _mk("ReturnStmt", [copy.deepcopy(v_)], file=like.get("file"), line=like.get("line"), col=like.get("col"))
+                        guard = _mk("IfStmt", [_not(kids(st[-2])[0]),
+                                               _mk("CompoundStmt", [ret(kids(decl)[0], st[-2])], file=st[-2].get("file"), line=st[-2].get("line"))],
+                                    file=st[-2].get("file"), line=st[-2].get("line"), col=st[-2].get("col"))
+                        f.body["inner"] = st[:-2] + [guard] + tb[:-1] + [ret(kids(last)[1], st[-1])]
+                        n += 1
+                        continue
+        # ---- (2)
+        for blk in list(walk(f.body)):
+            if blk["kind"] != "CompoundStmt":
+                continue
+            b = blk["inner"]
+            for i in range(len(b) - 2):
+                lp, test_if = b[i], b[i + 1]
+                if lp["kind"] != "WhileStmt" or test_if["kind"] != "IfStmt" or len(kids(test_if)) != 3:
+                    continue
+                rest = b[i + 2:]
+                if not rest or rest[-1]["kind"] != "ReturnStmt" or any(x["kind"] in ("WhileStmt", "ForStmt", "DoStmt") for r_ in rest for x in walk(r_)):
+                    continue
+                cond = strip(kids(lp)[0])
+                if cond["kind"] != "BinaryOperator" or cond.get("opcode") != "&&":
+                    continue
+                lbody = kids(lp)[1]
+                lb = list(kids(lbody)) if lbody["kind"] == "CompoundStmt" else [lbody]
+                if not lb or lb[-1]["kind"] != "BinaryOperator" or lb[-1].get("opcode") != "=":
+                    continue
+                tgt = strip(kids(lb[-1])[0], casts=True)
+                if tgt["kind"] != "DeclRefExpr":
+                    continue
+                vid = tgt["ref"]["id"]
+                halves = [kids(cond)[0], kids(cond)[1]]
+                ft = _flag_test(halves[0], {vid})
+                if ft is None:
+                    continue
+                other = halves[1]
+                if _refs_to(other, vid) or not _pure_expr(other):
+                    continue
+                # assigned nowhere else in the loop body
+                if any(strip(kids(x)[0], casts=True).get("ref", {}).get("id") == vid for st_ in lb[:-1] for x in walk(st_)
+                       if x["kind"] in ("BinaryOperator", "CompoundAssignOperator") and x.get("opcode", "").endswith("=")
+                       and x.get("opcode") not in ("==", "!=", "<=", ">=")):
+                    continue
+                # the flag has a constant value satisfying the test when the loop is entered
+                k0 = None
+                for prev in reversed(b[:i]):
+                    if prev["kind"] == "DeclStmt":
+                        for vd in kids(prev):
+                            if vd.get("id") == vid and kids(vd):
+                                k0 = _const_value(kids(vd)[0])
+                        if k0 is not None:
+                            break
+                        continue
+                    v_ = _assign_const_to(prev, vid) if prev["kind"] == "BinaryOperator" else None
+                    if v_ is not None:
+                        k0 = v_
+                        break
+                    if _refs_to(prev, vid) or any(x["kind"] in ("WhileStmt", "ForStmt", "DoStmt", "IfStmt") for x in walk(prev)):
+                        break
+                if k0 is None:
+                    # declared with the constant at function level and untouched since?
+                    for vd in walk(f.body):
+                        if vd["kind"] == "VarDecl" and vd.get("id") == vid and kids(vd) and _const_value(kids(vd)[0]) is not None:
+                            writes = [x for x in walk(f.body) if x["kind"] == "BinaryOperator" and x.get("opcode") == "=" and
+                                      strip(kids(x)[0], casts=True).get("ref", {}).get("id") == vid]
+                            if len(writes) == 1 and writes[0] is lb[-1]:
+                                k0 = _const_value(kids(vd)[0])
+                if k0 is None or not ft[1](k0):
+                    continue
+                ft2 = _flag_test(kids(test_if)[0], {vid})
+                if ft2 is None:
+                    continue
+                # which branch of the if belongs to "test holds"?
+                holds_then = all(ft2[1](v_) == ft[1](v_) for v_ in (-5, -4, -3, -2, -1, 0, 1, 2, 3))
+                holds_else = all(ft2[1](v_) != ft[1](v_) for v_ in (-5, -4, -3, -2, -1, 0, 1, 2, 3))
+                if not (holds_then or holds_else):
+                    continue
+                X = kids(test_if)[1] if holds_then else kids(test_if)[2]
+                Y = kids(test_if)[2] if holds_then else kids(test_if)[1]
+                ylist = list(kids(Y)) if Y["kind"] == "CompoundStmt" else [Y]
+                xlist = list(kids(X)) if X["kind"] == "CompoundStmt" else [X]
+                exit_blk = _mk("CompoundStmt", [_rename(y_, {}) for y_ in ylist] + [_rename(r_, {}) for r_ in rest],
+                               file=test_if.get("file"), line=test_if.get("line"))
+                leave = _mk("IfStmt", [_not(copy.deepcopy(halves[0])), exit_blk], file=test_if.get("file"), line=test_if.get("line"),
+                            col=test_if.get("col"))
+                new_body = _mk("CompoundStmt", lb + [leave], file=lbody.get("file"), line=lbody.get("line"))
+                new_loop = dict(lp)
+                new_loop["inner"] = [other, new_body]
+                blk["inner"] = b[:i] + [new_loop] + xlist + rest
+                n += 1
+                break
+    return n
 
 
 def lower_switches(model):
@@ -654,12 +1007,17 @@ def lower_switches(model):
 # ---------------------------------------------------------------------------------------------------------------
 # clean-up passes on functions that received inlined code
 
+_ENUMERATORS = {}
+
+
 def _const_value(n):
     n0 = strip(n, casts=True)
     if n0["kind"] == "IntegerLiteral":
         return int(n0["value"])
     if n0["kind"] == "CXXBoolLiteralExpr":
         return 1 if n0.get("value") else 0
+    if n0["kind"] == "DeclRefExpr" and n0.get("ref", {}).get("kind") == "EnumConstantDecl":
+        return _ENUMERATORS.get(n0["ref"].get("name"))
     return None
 
 
@@ -733,6 +1091,23 @@ def thread_flags(f):
     """A statement all of whose paths end in `R = constant`, followed (possibly after `T v = R;`) by `if (test of R or v)`:
     the if is moved into every tail, specialised for that constant."""
     changed = False
+    # `R = c ? K1 : K2` in a statement position is the if / else of two constant assignments
+    for blk in list(walk(f.body)):
+        if blk["kind"] != "CompoundStmt":
+            continue
+        for i_, a_ in enumerate(blk["inner"]):
+            if a_["kind"] == "BinaryOperator" and a_.get("opcode") == "=":
+                l_ = strip(kids(a_)[0], casts=True)
+                r_ = strip(kids(a_)[1], casts=True)
+                if l_["kind"] == "DeclRefExpr" and r_["kind"] == "ConditionalOperator" and \
+                        _const_value(kids(r_)[1]) is not None and _const_value(kids(r_)[2]) is not None and _pure_expr(kids(r_)[0]):
+                    def asg(v_):
+                        return _mk("CompoundStmt", [_mk("BinaryOperator", [copy.deepcopy(kids(a_)[0]), v_], opcode="=", type=a_.get("type"),
+                                                        file=a_.get("file"), line=a_.get("line"), col=a_.get("col"))],
+                                   file=a_.get("file"), line=a_.get("line"))
+                    blk["inner"][i_] = _mk("IfStmt", [kids(r_)[0], asg(kids(r_)[1]), asg(kids(r_)[2])], file=a_.get("file"),
+                                           line=a_.get("line"), col=a_.get("col"))
+                    changed = True
     for blk in list(walk(f.body)):
         if blk["kind"] != "CompoundStmt":
             continue
@@ -777,6 +1152,17 @@ def thread_flags(f):
             for t in tails:
                 cv = _assign_const_to(t, rid)
                 branch = kids(the_if)[1] if ft[1](cv) else (kids(the_if)[2] if len(kids(the_if)) > 2 else None)
+                # an else-if chain over the same flag: keep selecting
+                while branch is not None:
+                    b0 = branch
+                    if b0["kind"] == "CompoundStmt" and len(kids(b0)) == 1:
+                        b0 = kids(b0)[0]
+                    if b0["kind"] != "IfStmt":
+                        break
+                    ft2 = _flag_test(kids(b0)[0], {rid} | alias)
+                    if ft2 is None:
+                        break
+                    branch = kids(b0)[1] if ft2[1](cv) else (kids(b0)[2] if len(kids(b0)) > 2 else None)
                 if branch is None:
                     continue
                 cp = _rename(branch, {})
@@ -872,6 +1258,27 @@ def fold_pointer_null_tests(f):
                 out.extend(kids(taken) if taken["kind"] == "CompoundStmt" else [taken])
             changed = True
         x["inner"] = out
+    # a ternary on a decided flag: keep the arm that is taken
+    for x in walk(f.body):
+        ch = x.get("inner")
+        if not ch:
+            continue
+        for i, c in enumerate(ch):
+            c0 = c
+            while c0["kind"] in ("ParenExpr", "ImplicitCastExpr", "CStyleCastExpr") and kids(c0):
+                nxt = kids(c0)[0]
+                if nxt["kind"] == "ConditionalOperator":
+                    v = decide(kids(nxt)[0])
+                    if v is not None:
+                        c0["inner"] = [kids(nxt)[1] if v else kids(nxt)[2]]
+                        changed = True
+                        break
+                c0 = nxt
+            if c["kind"] == "ConditionalOperator":
+                v = decide(kids(c)[0])
+                if v is not None:
+                    ch[i] = kids(c)[1] if v else kids(c)[2]
+                    changed = True
     return changed
 
 
